@@ -335,7 +335,21 @@ func opBudget(op *Op, bootBytes int64) int64 {
 
 // Execute runs the scenario under one schedule. It is a pure function of
 // (scenario, schedule, code).
+// ballast perturbs heap addresses from one execution to the next, so that output
+// which leaks an address does not look stable merely because the allocator hands
+// out the same spot again.
+var (
+	ballast   [][]byte
+	execCount int
+	keepAlive []*Built
+)
+
 func Execute(sc *Scenario, sched *simrt.Schedule) (out *Outcome) {
+	execCount++
+	if len(ballast) > 4096 {
+		ballast = nil
+	}
+	ballast = append(ballast, make([]byte, 48+(execCount%13)*80))
 	out = &Outcome{}
 	ctx := &RunCtx{sc: sc, out: out, counts: map[string]int{}, errs: map[int]error{}}
 	prev := cur
@@ -385,6 +399,12 @@ func Execute(sc *Scenario, sched *simrt.Schedule) (out *Outcome) {
 
 	b := Build(sc.Decl)
 	ctx.b = b
+	// keep the last few hundred declarations reachable, as several live parsers in
+	// one program would be: a fresh one then cannot sit at the address of the last
+	if len(keepAlive) > 300 {
+		keepAlive = nil
+	}
+	keepAlive = append(keepAlive, b)
 	if b.Err != nil {
 		out.DeclErr = b.Err.Error()
 	}
